@@ -32,7 +32,7 @@ Ltac inv_step_tac :=
 Lemma step_inv s l s' : Inv s -> step s l = Some s' -> Inv s'.
 Proof.
   intros [Ih Ie Io Id Is Inn] H. destruct Io as [Io1 Io2]. destruct Id as [Id1 Id2].
-  destruct l as [dl|t| | | | | |tag| | | | | | |tag]; cbn in H.
+  destruct l as [dl|t| | | | | |tag| | | | | | |tag|]; cbn in H.
   - (* Enter *)
     destruct (p s) eqn:P; try discriminate.
     destruct (Z.ltb_spec dl (now s)); inv_step_tac; constructor; cbn; try discriminate.
@@ -157,6 +157,10 @@ Proof.
     inv_step_tac. destruct (Id2 tag eq_refl) as [Y Z0]. constructor; cbn; try assumption.
     + split; assumption.
     + split; [|intros g X; discriminate]. intros g [X|X]; [subst; exact Y|exact (Id1 g X)].
+  - (* WriteDone: no state change *)
+    destruct (p s) as [| | | |[g|]|] eqn:P; try discriminate.
+    destruct ((deadline s <? now s) || negb (conn_open s)); [discriminate|]. inversion H; subst s'.
+    constructor; rewrite ?P; [exact Ih|exact Ie|split; assumption|split; assumption|exact Is|exact Inn].
 Qed.
 
 Lemma run_inv : forall ls s s', Inv s -> run s ls = Some s' -> Inv s'.
@@ -200,7 +204,7 @@ Lemma owed_persists s l s' g : Inv s -> step s l = Some s' -> owed s = Some g ->
   owed s' = Some g \/ l = Discard g \/ l = ConnClosed.
 Proof.
   intros I H O. destruct (proj2 (inv_disc s I) g O) as [P E].
-  destruct l as [dl|t| | | | | |tag| | | | | | |tag]; cbn in H; rewrite ?P, ?E in H; cbn in H; try discriminate.
+  destruct l as [dl|t| | | | | |tag| | | | | | |tag|]; cbn in H; rewrite ?P, ?E in H; cbn in H; try discriminate.
   - destruct (t <? now s); [discriminate|]. inversion H; subst. left. exact O.
   - rewrite !orb_true_r in H. discriminate.
   - destruct (completed s); [discriminate|]. cbn in H. inversion H; subst. left. exact O.
@@ -233,4 +237,14 @@ Proof.
         - destruct (owed a); [|discriminate]. destruct (z =? tag0); [|discriminate]. inversion E; subst. auto. }
       destruct X as [X1 X2]. destruct (IH a1 b X1 R) as [Y1 Y2]. split; [exact Y1|congruence]. }
   intros ls s'' R. refine (proj2 (G ls _ _ _ R)). reflexivity.
+Qed.
+
+(* the serial transport's frame reaches the peer complete only while the deadline has not passed, and its arrival
+   changes nothing in the call's state *)
+Lemma write_done_by_deadline s s' : step s WriteDone = Some s' ->
+  p s = OnWire None /\ now s <= deadline s /\ conn_open s = true /\ s' = s.
+Proof.
+  cbn. destruct (p s) as [| | | |[g|]|]; try discriminate.
+  destruct (Z.ltb_spec (deadline s) (now s)) as [L|L]; cbn; [discriminate|].
+  destruct (conn_open s); cbn; [|discriminate]. intros E. inversion E; subst. repeat split; auto.
 Qed.
